@@ -11,6 +11,13 @@
 //   poke                       onMessage once more even after an error (what the code itself does then)
 //   bigframe <n>               C++ only: encode a message with an n-byte field, decode it; `# big ...`
 // outputs per op: `msg <len> <fnv64>` / `err <name>` in callback order, `st left=<readable> dead=<0|1>`.
+// The message callback KEEPS the shared_ptr it is handed (as RpcCodec_test.cc and any server that queues requests to a
+// worker pool do).  After onMessage() has returned, from the kept pointers, per message k of this call:
+//   `# fields ...`                               its fields as protobuf reports them now (for the oracle)
+//   `kept <k> obj=<i> <len> <fnv64>`             object identity (numbered by first appearance in this call) and the payload
+//                                                it was delivered with - when it still serialises as it did in the callback
+//   `kept <k> obj=<i> changed <len> <fnv64>`     it does not: the payload of the message of this call it equals now (`? ?`: none)
+// and `distinct <0|1> n=<count>`: whether all pointers handed out by this call are distinct objects.
 // rawmode: 0 = no raw callback, 1 = raw callback that lets every frame through, 2 = raw callback that drops
 // frames whose last byte is odd.
 #include "muduo/net/Buffer.h"
@@ -33,6 +40,14 @@ using namespace vh;
 
 static bool g_dead = false;
 static std::string g_lastPayload;
+
+// what a consumer that keeps the messages holds: the pointer, and what it looked like when it was handed over
+struct Kept {
+  muduo::net::MessagePtr m;
+  std::string ser;       // m->SerializeAsString() inside the callback
+  std::string payload;   // the payload it was parsed from
+};
+static std::vector<Kept> g_kept;
 
 // the only instrumentation: see (and log) every payload handed to protobuf, with protobuf's verdict
 class Codec : public ProtobufCodecLite {
@@ -67,14 +82,39 @@ static void onError(const TcpConnectionPtr&, Buffer*, Timestamp, ProtobufCodecLi
   printf("err %s\n", ProtobufCodecLite::errorCodeToString(e).c_str());
   g_dead = true;
 }
-static void onRpc(const TcpConnectionPtr&, const RpcMessagePtr& m, Timestamp) {
-  printRpcFields(*m);
+static void keep(const muduo::net::MessagePtr& m) {
+  Kept k; k.m = m; k.ser = m->SerializeAsString(); k.payload = g_lastPayload;
+  g_kept.push_back(k);
   printf("msg %zu %llu\n", g_lastPayload.size(), static_cast<unsigned long long>(fnv64(g_lastPayload)));
 }
-static void onLite(const TcpConnectionPtr&, const MessagePtr& m, Timestamp) {
-  const ListRpcRequest* l = dynamic_cast<const ListRpcRequest*>(m.get());
-  if (l) printListFields(*l); else printf("# fields ?\n");
-  printf("msg %zu %llu\n", g_lastPayload.size(), static_cast<unsigned long long>(fnv64(g_lastPayload)));
+static void onRpc(const TcpConnectionPtr&, const RpcMessagePtr& m, Timestamp) { keep(m); }
+static void onLite(const TcpConnectionPtr&, const muduo::net::MessagePtr& m, Timestamp) { keep(m); }
+
+// after onMessage() has returned: what the kept pointers refer to now
+static void reportKept() {
+  std::vector<const void*> firsts;
+  for (size_t k = 0; k < g_kept.size(); ++k) {
+    const google::protobuf::Message* p = g_kept[k].m.get();
+    const RpcMessage* r = dynamic_cast<const RpcMessage*>(p);
+    const ListRpcRequest* l = dynamic_cast<const ListRpcRequest*>(p);
+    if (r) printRpcFields(*r); else if (l) printListFields(*l); else printf("# fields ?\n");
+    size_t idx = 0;
+    while (idx < firsts.size() && firsts[idx] != p) ++idx;
+    if (idx == firsts.size()) firsts.push_back(p);
+    std::string now = p->SerializeAsString();
+    if (now == g_kept[k].ser) {
+      printf("kept %zu obj=%zu %zu %llu\n", k, idx, g_kept[k].payload.size(),
+             static_cast<unsigned long long>(fnv64(g_kept[k].payload)));
+    } else {
+      size_t j = g_kept.size();
+      while (j > 0 && g_kept[j - 1].ser != now) --j;   // the latest message of this call that looked like this
+      if (j > 0) printf("kept %zu obj=%zu changed %zu %llu\n", k, idx, g_kept[j - 1].payload.size(),
+                        static_cast<unsigned long long>(fnv64(g_kept[j - 1].payload)));
+      else printf("kept %zu obj=%zu changed ? ?\n", k, idx);
+    }
+  }
+  printf("distinct %d n=%zu\n", firsts.size() == g_kept.size() ? 1 : 0, g_kept.size());
+  g_kept.clear();
 }
 static bool rawAll(const TcpConnectionPtr&, StringPiece, Timestamp) { return true; }
 static bool rawOdd(const TcpConnectionPtr&, StringPiece f, Timestamp) {
@@ -182,6 +222,7 @@ int main() {
       printf("frame %s\n--\n", toHex(std::string(out.peek(), out.readableBytes())).c_str());
     } else if ((op == "feed" && w.size() == 2 && parseBytes(w[1], &d)) || op == "poke") {
       if (op == "feed") buf->append(d.data(), d.size());
+      g_kept.clear();
       if (!g_dead || op == "poke") {
         Timestamp now;
         if (rpc) rpc->onMessage(conn, buf.get(), now);
@@ -190,6 +231,10 @@ int main() {
         else if (ex) ex->onMessage(conn, buf.get(), now);
 #endif
       }
+#ifdef WITH_EXAMPLE_CODEC
+      if (!ex)
+#endif
+      reportKept();
       printf("st left=%zu dead=%d\n--\n", buf->readableBytes(), g_dead ? 1 : 0);
     } else if (op == "bigframe" && w.size() == 2) {
       // the encoder has no size limit; the decoder has one: C++-only observation (the frame is too big to ship
